@@ -359,4 +359,13 @@ theorem c03_x_sealed_eq_active_at_consts (base : Nat) (posOf : ID → Nat) (a : 
 theorem c03_x_sorted_docs_returns_copies :
     sortedDocsReturns = ["sdocsFile", "slices.Clone(bw.BlockOffsets)", "maps.Clone(bw.Positions)", "nil"] := by decide
 
+/-- the LID block generator rewrites LIDs in place (`reassignLIDs`) only inside its own buffer `blockLIDs`, which is
+allocated by the generator and filled by copying (`append(blockLIDs, tokenLIDs[:right]...)`): the posting lists of
+the live active fraction (`TokenLIDs.sorted`) are never aliased, so sealing does not change what the active form
+answers (the model's `genBlocks` is a pure function of its input; the oracle form `active-after-seal` checks the code) -/
+theorem c03_x_lid_generator_owns_buffer :
+    lidGenReassignArgs = ["blockLIDs"] ∧
+    lidGenBufferAssigns = ["make([]uint32, 0, maxBlockSize)", "blockLIDs[:0]", "append(blockLIDs, tokenLIDs[:right]...)"] := by
+  decide
+
 end SV.Props.C03
